@@ -1,8 +1,358 @@
-//! Executor, part 3: views/layout (C16), approx and predicates (C18), cast (C19), serde (C20).
+//! Executor, part 3: views and layout (C16), approximate equality and predicates (C18),
+//! numeric cast (C19).  (serde, C20, is in exec_serde.rs.)
 use crate::sc::Sc;
 use crate::val::*;
+use cgmath::prelude::*;
 use cgmath::*;
 
-pub fn exec_flt_misc<S: Sc + BaseFloat>(_op: &str, _f: &str, _a: &[Val<S>]) -> Option<Val<S>> {
+fn tup<S: Sc>(xs: Vec<S>) -> Val<S> { Val::Tup(xs.into_iter().map(Val::N).collect()) }
+fn idx(i: i64) -> usize { if i < 0 { usize::MAX } else { i as usize } }
+fn scalars<S: Sc>(a: &[Val<S>]) -> Option<Vec<S>> {
+    let mut v = Vec::new();
+    for x in a { if let Val::N(s) = x { v.push(*s) } else { return None } }
+    Some(v)
+}
+
+// ---------------------------------------------------------------- C16: arrays (vectors and points)
+macro_rules! arr_views {
+    ($fname:ident, $X:ident, $XT:ident, $n:tt, ($($f:ident),+), $tuple:ty, $mint:tt) => {
+        fn $fname<S: Sc>(op: &str, f: &str, a: &[Val<S>]) -> Option<Val<S>> {
+            use Val::*;
+            Some(match (op, a) {
+                ("view_read", [$X(x)]) => {
+                    let x = *x;
+                    match f {
+                        "fields" => tup(vec![$(x.$f),+]),
+                        "index" => tup((0..$n).map(|i| x[i]).collect()),
+                        "array_into" => { let r: [S; $n] = x.into(); tup(r.to_vec()) }
+                        "array_ref" => { let r: &[S; $n] = x.as_ref(); tup(r.to_vec()) }
+                        "tuple_into" => { let r: $tuple = x.into(); let ($($f),+,) = r; tup(vec![$($f),+]) }
+                        "tuple_ref" => { let r: &$tuple = x.as_ref(); let ($($f),+,) = *r; tup(vec![$($f),+]) }
+                        "range_full" => tup(x[..].to_vec()),
+                        "range_to_from" => { let mut v = x[..1].to_vec(); v.extend_from_slice(&x[1..]); tup(v) }
+                        "range" => tup(x[0..$n].to_vec()),
+                        "ptr" => { let p = Array::as_ptr(&x); tup((0..$n).map(|i| unsafe { *p.add(i) }).collect()) }
+                        "conv" => arr_views!(@conv $n, x),
+                        "mint" => arr_views!(@mint_read $mint, $XT, x, $n),
+                        _ => return None,
+                    }
+                }
+                ("view_from", [T(ty), T(view), rest @ ..]) if ty == stringify!($XT) && rest.len() == $n => {
+                    let s = scalars(rest)?;
+                    let mut it = s.iter().cloned();
+                    let arr: [S; $n] = [$({ let $f = it.next().unwrap(); $f }),+];
+                    $X(match view.as_str() {
+                        "array" => $XT::from(arr),
+                        "array_ref" => { let r: &$XT<S> = From::from(&arr); *r }
+                        "array_mut" => { let mut arr2 = arr; let r: &mut $XT<S> = From::from(&mut arr2); *r }
+                        "tuple" => { let [$($f),+] = arr; let t: $tuple = ($($f),+,); $XT::from(t) }
+                        "tuple_ref" => { let [$($f),+] = arr; let t: $tuple = ($($f),+,); let r: &$XT<S> = From::from(&t); *r }
+                        "tuple_mut" => { let [$($f),+] = arr; let mut t: $tuple = ($($f),+,); let r: &mut $XT<S> = From::from(&mut t); *r }
+                        "new" => { let [$($f),+] = arr; $XT::new($($f),+) }
+                        "mint" => arr_views!(@mint_from $mint, $XT, arr),
+                        _ => return None,
+                    })
+                }
+                // write component i through a mutable view, then return the whole value
+                ("view_write", [$X(x), T(view), I(i), N(s)]) => {
+                    let mut x = *x;
+                    let i = idx(*i);
+                    match view.as_str() {
+                        "index" => { x[i] = *s; }
+                        "array_mut" => { let r: &mut [S; $n] = x.as_mut(); r[i] = *s; }
+                        "tuple_mut" => { let r: &mut $tuple = x.as_mut(); let ($($f),+,) = r; let mut k = 0usize; $( if k == i { *$f = *s; } k += 1; )+ if i >= k { panic!("index out of range") } }
+                        "range_mut" => { x[..][i] = *s; }
+                        "ptr_mut" => { if i >= $n { panic!("index out of range") } let p = Array::as_mut_ptr(&mut x); unsafe { *p.add(i) = *s; } }
+                        "fields" => { let mut k = 0usize; $( if k == i { x.$f = *s; } k += 1; )+ if i >= k { panic!("index out of range") } }
+                        // write through the array, observe through the value converted by reference
+                        "from_array_mut" => { let mut arr: [S; $n] = x.into(); { let r: &mut $XT<S> = From::from(&mut arr); r[i] = *s; } x = $XT::from(arr); }
+                        _ => return None,
+                    }
+                    $X(x)
+                }
+                ("index_range", [$X(x), T(kind), I(lo), I(hi)]) => {
+                    let (lo, hi) = (idx(*lo), idx(*hi));
+                    match kind.as_str() {
+                        "range" => tup(x[lo..hi].to_vec()),
+                        "to" => tup(x[..hi].to_vec()),
+                        "from" => tup(x[lo..].to_vec()),
+                        _ => return None,
+                    }
+                }
+                ("swap_elements", [$X(x), I(i), I(j)]) => { let mut x = *x; Array::swap_elements(&mut x, idx(*i), idx(*j)); $X(x) }
+                ("map", [$X(x), N(k)]) => $X(x.map(|c| c + c + *k)),
+                ("zip", [$X(x), $X(y)]) => $X(x.zip(*y, |p, q| p + p + q)),
+                _ => return None,
+            })
+        }
+    };
+    (@conv 2, $x:expr) => { tup(cgmath::conv::array2($x).to_vec()) };
+    (@conv 3, $x:expr) => { tup(cgmath::conv::array3($x).to_vec()) };
+    (@conv 4, $x:expr) => { tup(cgmath::conv::array4($x).to_vec()) };
+    (@conv 1, $x:expr) => { return None };
+    (@mint_read none, $XT:ident, $x:expr, $n:expr) => { return None };
+    (@mint_read $M:ident, $XT:ident, $x:expr, $n:expr) => {{ let m: mint::$M<S> = $x.into(); let r: [S; $n] = m.into(); tup(r.to_vec()) }};
+    (@mint_from none, $XT:ident, $arr:expr) => { return None };
+    (@mint_from $M:ident, $XT:ident, $arr:expr) => {{ let m: mint::$M<S> = mint::$M::from($arr); $XT::from(m) }};
+}
+arr_views!(views_v1, V1, Vector1, 1, (x), (S,), none);
+arr_views!(views_v2, V2, Vector2, 2, (x, y), (S, S), Vector2);
+arr_views!(views_v3, V3, Vector3, 3, (x, y, z), (S, S, S), Vector3);
+arr_views!(views_v4, V4, Vector4, 4, (x, y, z, w), (S, S, S, S), Vector4);
+arr_views!(views_p1, P1, Point1, 1, (x), (S,), none);
+arr_views!(views_p2, P2, Point2, 2, (x, y), (S, S), Point2);
+arr_views!(views_p3, P3, Point3, 3, (x, y, z), (S, S, S), Point3);
+
+// ---------------------------------------------------------------- C16: matrices
+macro_rules! mat_views {
+    ($fname:ident, $M:ident, $MT:ident, $VT:ident, $V:ident, $n:expr, $nn:expr, ($($f:ident),+), $mint:ident, $conv:ident) => {
+        fn $fname<S: Sc>(op: &str, f: &str, a: &[Val<S>]) -> Option<Val<S>> {
+            use Val::*;
+            Some(match (op, a) {
+                ("col", [$M(m), I(c)]) => $V(m[idx(*c)]),
+                ("view_read", [$M(m)]) => {
+                    let m = *m;
+                    match f {
+                        "fields" => { let mut v = Vec::new(); $( { let c: [S; $n] = m.$f.into(); v.extend_from_slice(&c); } )+ tup(v) }
+                        "index" => { let mut v = Vec::new(); for c in 0..$n { for r in 0..$n { v.push(m[c][r]); } } tup(v) }
+                        "array_into" => { let r: [[S; $n]; $n] = m.into(); tup(r.iter().flat_map(|c| c.iter().cloned()).collect()) }
+                        "array_ref" => { let r: &[[S; $n]; $n] = m.as_ref(); tup(r.iter().flat_map(|c| c.iter().cloned()).collect()) }
+                        "flat_ref" => { let r: &[S; $nn] = m.as_ref(); tup(r.to_vec()) }
+                        "ptr" => { let mf = m; let r: &[S; $nn] = mf.as_ref(); let p = r.as_ptr(); tup((0..$nn).map(|i| unsafe { *p.add(i) }).collect()) }
+                        "conv" => { let r = cgmath::conv::$conv(m); tup(r.iter().flat_map(|c| c.iter().cloned()).collect()) }
+                        "mint" => { let mm: mint::$mint<S> = m.into(); let mut v = Vec::new(); $( { let c: [S; $n] = mm.$f.into(); v.extend_from_slice(&c); } )+ tup(v) }
+                        _ => return None,
+                    }
+                }
+                ("view_from", [T(ty), T(view), rest @ ..]) if ty == stringify!($MT) && rest.len() == $nn => {
+                    let s = scalars(rest)?;
+                    let mut a2 = [[s[0]; $n]; $n];
+                    let mut flat = [s[0]; $nn];
+                    for c in 0..$n { for r in 0..$n { a2[c][r] = s[c * $n + r]; flat[c * $n + r] = s[c * $n + r]; } }
+                    $M(match view.as_str() {
+                        "array" => $MT::from(a2),
+                        "array_ref" => { let r: &$MT<S> = From::from(&a2); *r }
+                        "array_mut" => { let mut b = a2; let r: &mut $MT<S> = From::from(&mut b); *r }
+                        "flat_ref" => { let r: &$MT<S> = From::from(&flat); *r }
+                        "flat_mut" => { let mut b = flat; let r: &mut $MT<S> = From::from(&mut b); *r }
+                        "mint" => { let mm: mint::$mint<S> = mint::$mint::from(a2); $MT::from(mm) }
+                        _ => return None,
+                    })
+                }
+                ("view_write", [$M(m), T(view), I(i), N(s)]) => {
+                    let mut m = *m;
+                    let i = idx(*i);
+                    let (c, r) = (i / $n, i % $n);
+                    match view.as_str() {
+                        "index" => { m[c][r] = *s; }
+                        "array_mut" => { let a: &mut [[S; $n]; $n] = m.as_mut(); a[c][r] = *s; }
+                        "flat_mut" => { let a: &mut [S; $nn] = m.as_mut(); a[i] = *s; }
+                        "col_mut" => { let col: &mut $VT<S> = &mut m[c]; col[r] = *s; }
+                        "from_flat_mut" => { let fl: &[S; $nn] = m.as_ref(); let mut fl = *fl; { let mr: &mut $MT<S> = From::from(&mut fl); mr[c][r] = *s; } let back: &$MT<S> = From::from(&fl); m = *back; }
+                        _ => return None,
+                    }
+                    $M(m)
+                }
+                _ => return None,
+            })
+        }
+    };
+}
+mat_views!(views_m2, M2, Matrix2, Vector2, V2, 2, 4, (x, y), ColumnMatrix2, array2x2);
+mat_views!(views_m3, M3, Matrix3, Vector3, V3, 3, 9, (x, y, z), ColumnMatrix3, array3x3);
+mat_views!(views_m4, M4, Matrix4, Vector4, V4, 4, 16, (x, y, z, w), ColumnMatrix4, array4x4);
+
+// ---------------------------------------------------------------- C16: quaternion
+fn views_quat<S: Sc>(op: &str, f: &str, a: &[Val<S>]) -> Option<Val<S>> {
+    use Val::*;
+    Some(match (op, a) {
+        ("view_read", [Q(q)]) => {
+            let q = *q;
+            match f {
+                "fields" => tup(vec![q.v.x, q.v.y, q.v.z, q.s]),
+                "index" => tup((0..4).map(|i| q[i]).collect()),
+                "array_into" => { let r: [S; 4] = q.into(); tup(r.to_vec()) }
+                "array_ref" => { let r: &[S; 4] = q.as_ref(); tup(r.to_vec()) }
+                "tuple_into" => { let (x, y, z, w): (S, S, S, S) = q.into(); tup(vec![x, y, z, w]) }
+                "tuple_ref" => { let r: &(S, S, S, S) = q.as_ref(); tup(vec![r.0, r.1, r.2, r.3]) }
+                "range_full" => tup(q[..].to_vec()),
+                "range_to_from" => { let mut v = q[..2].to_vec(); v.extend_from_slice(&q[2..]); tup(v) }
+                "range" => tup(q[0..4].to_vec()),
+                "mint" => { let m: mint::Quaternion<S> = q.into(); tup(vec![m.v.x, m.v.y, m.v.z, m.s]) }
+                _ => return None,
+            }
+        }
+        ("view_from", [T(ty), T(view), N(x), N(y), N(z), N(w)]) if ty == "Quaternion" => {
+            let arr = [*x, *y, *z, *w];
+            Q(match view.as_str() {
+                "array" => Quaternion::from(arr),
+                "array_ref" => { let r: &Quaternion<S> = From::from(&arr); *r }
+                "array_mut" => { let mut b = arr; let r: &mut Quaternion<S> = From::from(&mut b); *r }
+                "tuple" => Quaternion::from((*x, *y, *z, *w)),
+                "tuple_ref" => { let t = (*x, *y, *z, *w); let r: &Quaternion<S> = From::from(&t); *r }
+                "tuple_mut" => { let mut t = (*x, *y, *z, *w); let r: &mut Quaternion<S> = From::from(&mut t); *r }
+                "mint" => { let m = mint::Quaternion { v: mint::Vector3 { x: *x, y: *y, z: *z }, s: *w }; Quaternion::from(m) }
+                _ => return None,
+            })
+        }
+        ("view_write", [Q(q), T(view), I(i), N(s)]) => {
+            let mut q = *q;
+            let i = idx(*i);
+            match view.as_str() {
+                "index" => { q[i] = *s; }
+                "array_mut" => { let r: &mut [S; 4] = q.as_mut(); r[i] = *s; }
+                "tuple_mut" => { let r: &mut (S, S, S, S) = q.as_mut(); match i { 0 => r.0 = *s, 1 => r.1 = *s, 2 => r.2 = *s, 3 => r.3 = *s, _ => panic!("index out of range") } }
+                "range_mut" => { q[..][i] = *s; }
+                "fields" => match i { 0 => q.v.x = *s, 1 => q.v.y = *s, 2 => q.v.z = *s, 3 => q.s = *s, _ => panic!("index out of range") },
+                _ => return None,
+            }
+            Q(q)
+        }
+        ("index", [Q(q), I(i)]) => N(q[idx(*i)]),
+        ("index_range", [Q(q), T(kind), I(lo), I(hi)]) => {
+            let (lo, hi) = (idx(*lo), idx(*hi));
+            match kind.as_str() { "range" => tup(q[lo..hi].to_vec()), "to" => tup(q[..hi].to_vec()), "from" => tup(q[lo..].to_vec()), _ => return None }
+        }
+        _ => return None,
+    })
+}
+
+pub fn exec_views<S: Sc>(op: &str, f: &str, a: &[Val<S>]) -> Option<Val<S>> {
+    macro_rules! try_all { ($($g:ident),+) => { $( if let Some(r) = $g(op, f, a) { return Some(r); } )+ } }
+    try_all!(views_v1, views_v2, views_v3, views_v4, views_p1, views_p2, views_p3, views_m2, views_m3, views_m4, views_quat);
+    if op == "swizzle" { return crate::swizzle_gen::swizzle(a); }
+    if op == "cast" { return crate::exec_cast::cast(a); }
     None
+}
+
+// ---------------------------------------------------------------- C18: approximate equality and predicates
+use approx::{AbsDiffEq, RelativeEq, UlpsEq};
+
+/// components of a compound value in canonical order (public fields / conversions only)
+pub fn comps<S: Sc>(v: &Val<S>) -> Option<Vec<S>> {
+    use Val::*;
+    Some(match v {
+        N(x) => vec![*x],
+        V1(v) => vec![v.x], V2(v) => vec![v.x, v.y], V3(v) => vec![v.x, v.y, v.z], V4(v) => vec![v.x, v.y, v.z, v.w],
+        P1(v) => vec![v.x], P2(v) => vec![v.x, v.y], P3(v) => vec![v.x, v.y, v.z],
+        M2(m) => vec![m.x.x, m.x.y, m.y.x, m.y.y],
+        M3(m) => vec![m.x.x, m.x.y, m.x.z, m.y.x, m.y.y, m.y.z, m.z.x, m.z.y, m.z.z],
+        M4(m) => vec![m.x.x, m.x.y, m.x.z, m.x.w, m.y.x, m.y.y, m.y.z, m.y.w, m.z.x, m.z.y, m.z.z, m.z.w, m.w.x, m.w.y, m.w.z, m.w.w],
+        Q(q) => vec![q.v.x, q.v.y, q.v.z, q.s],
+        ARad(a) => vec![a.0], ADeg(a) => vec![a.0],
+        B2(b) => { let m = basis2_mat(b); vec![m.x.x, m.x.y, m.y.x, m.y.y] }
+        B3(b) => { let m = basis3_mat(b); vec![m.x.x, m.x.y, m.x.z, m.y.x, m.y.y, m.y.z, m.z.x, m.z.y, m.z.z] }
+        ERad(e) => vec![e.x.0, e.y.0, e.z.0], EDeg(e) => vec![e.x.0, e.y.0, e.z.0],
+        DQ(d) => { let mut v = vec![d.scale, d.rot.v.x, d.rot.v.y, d.rot.v.z, d.rot.s]; v.extend_from_slice(&[d.disp.x, d.disp.y, d.disp.z]); v }
+        D3(d) => { let mut v = vec![d.scale]; v.extend(comps::<S>(&B3(d.rot))?); v.extend_from_slice(&[d.disp.x, d.disp.y, d.disp.z]); v }
+        D2(d) => { let mut v = vec![d.scale]; v.extend(comps::<S>(&B2(d.rot))?); v.extend_from_slice(&[d.disp.x, d.disp.y]); v }
+        _ => return None,
+    })
+}
+fn bools<S: Sc>(bs: Vec<bool>) -> Val<S> { Val::Tup(bs.into_iter().map(Val::B).collect()) }
+
+macro_rules! approx_arms {
+    ($op:expr, $f:expr, $a:expr, $($V:ident),+) => {
+        match ($op, $a) {
+            $(
+            ("abs_diff_eq", [Val::$V(x), Val::$V(y), Val::N(e)]) => Some(if $f == "default" { x.abs_diff_eq(y, <S as AbsDiffEq>::default_epsilon()) } else { x.abs_diff_eq(y, *e) }),
+            ("relative_eq", [Val::$V(x), Val::$V(y), Val::N(e), Val::N(r)]) => Some(if $f == "default" { x.relative_eq(y, <S as AbsDiffEq>::default_epsilon(), <S as RelativeEq>::default_max_relative()) } else { x.relative_eq(y, *e, *r) }),
+            ("ulps_eq", [Val::$V(x), Val::$V(y), Val::N(e), Val::I(u)]) => Some(if $f == "default" { x.ulps_eq(y, <S as AbsDiffEq>::default_epsilon(), <S as UlpsEq>::default_max_ulps()) } else { x.ulps_eq(y, *e, *u as u32) }),
+            ("eq", [Val::$V(x), Val::$V(y)]) => Some(x == y),
+            )+
+            _ => None,
+        }
+    };
+}
+
+pub fn exec_approx<S: Sc + BaseFloat>(op: &str, f: &str, a: &[Val<S>]) -> Option<Val<S>> {
+    use Val::*;
+    // the three relations on every compound type; the scalar verdicts are observed on the components
+    let compound: Option<bool> = approx_arms!(op, f, a, V1, V2, V3, V4, P1, P2, P3, M2, M3, M4, Q, ARad, ADeg, B2, B3, ERad, EDeg, DQ, D3, D2);
+    if let Some(c) = compound {
+        let (xs, ys) = (comps(&a[0])?, comps(&a[1])?);
+        let is_mat_default = f == "default" && matches!(a[0], M2(_) | M3(_) | M4(_) | B2(_) | B3(_));
+        let _ = is_mat_default;
+        let sv: Vec<bool> = xs.iter().zip(ys.iter()).map(|(x, y)| match (op, a) {
+            ("abs_diff_eq", [_, _, N(e)]) => x.abs_diff_eq(y, *e),
+            ("relative_eq", [_, _, N(e), N(r)]) => x.relative_eq(y, *e, *r),
+            ("ulps_eq", [_, _, N(e), I(u)]) => x.ulps_eq(y, *e, *u as u32),
+            _ => x == y,
+        }).collect();
+        return Some(Tup(vec![B(c), bools(sv)]));
+    }
+    // angles and Euler triples are built from raw numbers inside the call: f = "raw", args (T unit, x.., y.., eps [, rel | ulps])
+    if f == "raw" {
+        if let Some(T(unit)) = a.first() {
+            let n = if unit.starts_with('E') { 3 } else { 1 };
+            let nums: Vec<S> = a[1..].iter().filter_map(|v| if let N(s) = v { Some(*s) } else { None }).collect();
+            if nums.len() < 2 * n + 1 { return None; }
+            let (xs, ys, e) = (&nums[0..n], &nums[n..2 * n], nums[2 * n]);
+            let (rel, ulps) = (nums.get(2 * n + 1).cloned(), a.last().and_then(|v| if let I(u) = v { Some(*u as u32) } else { None }));
+            macro_rules! cmp { ($x:expr, $y:expr) => { match op {
+                "abs_diff_eq" => $x.abs_diff_eq(&$y, e), "relative_eq" => $x.relative_eq(&$y, e, rel?), "ulps_eq" => $x.ulps_eq(&$y, e, ulps?), _ => return None } } }
+            let c = match unit.as_str() {
+                "Rad" => cmp!(Rad(xs[0]), Rad(ys[0])), "Deg" => cmp!(Deg(xs[0]), Deg(ys[0])),
+                "ERad" => cmp!(Euler::new(Rad(xs[0]), Rad(xs[1]), Rad(xs[2])), Euler::new(Rad(ys[0]), Rad(ys[1]), Rad(ys[2]))),
+                "EDeg" => cmp!(Euler::new(Deg(xs[0]), Deg(xs[1]), Deg(xs[2])), Euler::new(Deg(ys[0]), Deg(ys[1]), Deg(ys[2]))),
+                _ => return None,
+            };
+            let sv: Vec<bool> = xs.iter().zip(ys.iter()).map(|(x, y)| match op {
+                "abs_diff_eq" => x.abs_diff_eq(y, e), "relative_eq" => x.relative_eq(y, e, rel.unwrap()), _ => x.ulps_eq(y, e, ulps.unwrap()) }).collect();
+            return Some(Tup(vec![B(c), bools(sv)]));
+        }
+        return None;
+    }
+    Some(match (op, a) {
+        ("is_finite", [x]) => {
+            let c = match x { V1(v) => v.is_finite(), V2(v) => v.is_finite(), V3(v) => v.is_finite(), V4(v) => v.is_finite(),
+                P1(v) => v.is_finite(), P2(v) => v.is_finite(), P3(v) => v.is_finite(),
+                M2(m) => m.is_finite(), M3(m) => m.is_finite(), M4(m) => m.is_finite(), Q(q) => q.is_finite(), _ => return None };
+            Tup(vec![B(c), bools(comps(x)?.iter().map(|s| num_traits::Float::is_finite(*s)).collect())])
+        }
+        ("is_zero_approx", [x]) => {
+            let c = match x { M2(m) => m.is_zero(), M3(m) => m.is_zero(), M4(m) => m.is_zero(), Q(q) => q.is_zero(), ARad(r) => r.is_zero(), ADeg(r) => r.is_zero(), _ => return None };
+            let z = S::zero();
+            // Matrix::is_zero compares with the matrix default epsilon (1e-6), the others with the scalar default
+            let sv: Vec<bool> = comps(x)?.iter().map(|s| match x {
+                M2(_) | M3(_) | M4(_) => s.ulps_eq(&z, num_traits::cast(1.0e-6f64).unwrap(), <S as UlpsEq>::default_max_ulps()),
+                _ => s.ulps_eq(&z, <S as AbsDiffEq>::default_epsilon(), <S as UlpsEq>::default_max_ulps()) }).collect();
+            Tup(vec![B(c), bools(sv)])
+        }
+        ("is_identity", [x]) => {
+            let (c, id) = match x { M2(m) => (m.is_identity(), M2(Matrix2::identity())), M3(m) => (m.is_identity(), M3(Matrix3::identity())), M4(m) => (m.is_identity(), M4(Matrix4::identity())), _ => return None };
+            let sv: Vec<bool> = comps(x)?.iter().zip(comps(&id)?.iter()).map(|(s, t)| s.ulps_eq(t, num_traits::cast(1.0e-6f64).unwrap(), <S as UlpsEq>::default_max_ulps())).collect();
+            Tup(vec![B(c), bools(sv)])
+        }
+        ("is_diagonal", [x]) | ("is_symmetric", [x]) => {
+            let (c, n) = match (op, x) {
+                ("is_diagonal", M2(m)) => (m.is_diagonal(), 2), ("is_diagonal", M3(m)) => (m.is_diagonal(), 3), ("is_diagonal", M4(m)) => (m.is_diagonal(), 4),
+                ("is_symmetric", M2(m)) => (m.is_symmetric(), 2), ("is_symmetric", M3(m)) => (m.is_symmetric(), 3), ("is_symmetric", M4(m)) => (m.is_symmetric(), 4),
+                _ => return None };
+            let e = comps(x)?;
+            let z = S::zero();
+            let mut sv = Vec::new();
+            for cc in 0..n { for r in 0..n { if cc != r {
+                let s = e[cc * n + r];
+                sv.push(if op == "is_diagonal" { s.ulps_eq(&z, <S as AbsDiffEq>::default_epsilon(), <S as UlpsEq>::default_max_ulps()) }
+                        else { s.ulps_eq(&e[r * n + cc], <S as AbsDiffEq>::default_epsilon(), <S as UlpsEq>::default_max_ulps()) });
+            } } }
+            Tup(vec![B(c), bools(sv)])
+        }
+        ("is_invertible", [x]) => {
+            let (c, d) = match x { M2(m) => (m.is_invertible(), m.determinant()), M3(m) => (m.is_invertible(), m.determinant()), M4(m) => (m.is_invertible(), m.determinant()), _ => return None };
+            Tup(vec![B(c), bools(vec![!d.ulps_eq(&S::zero(), <S as AbsDiffEq>::default_epsilon(), <S as UlpsEq>::default_max_ulps())])])
+        }
+        ("is_perpendicular", [x, y]) => {
+            let (c, d) = match (x, y) { (V1(u), V1(v)) => (u.is_perpendicular(*v), u.dot(*v)), (V2(u), V2(v)) => (u.is_perpendicular(*v), u.dot(*v)),
+                (V3(u), V3(v)) => (u.is_perpendicular(*v), u.dot(*v)), (V4(u), V4(v)) => (u.is_perpendicular(*v), u.dot(*v)),
+                (Q(u), Q(v)) => (u.is_perpendicular(*v), u.dot(*v)), _ => return None };
+            Tup(vec![B(c), bools(vec![d.ulps_eq(&S::zero(), <S as AbsDiffEq>::default_epsilon(), <S as UlpsEq>::default_max_ulps())])])
+        }
+        _ => return None,
+    })
+}
+
+pub fn exec_flt_misc<S: Sc + BaseFloat>(op: &str, f: &str, a: &[Val<S>]) -> Option<Val<S>> {
+    exec_approx(op, f, a)
 }
